@@ -1277,7 +1277,55 @@ def fixed_cases():
          "well-typed match with a diverging first arm: its value is an int"),
         ("match-never-second-ok", 'fn f(a: int) -> int { match a { 0 => 1, 1 => throw("z"), _ => 30 } }\nfn main() { println(f(1)); }\n', False,
          "diverging arm in second position"),
-    ] + _f3_cases()
+    ] + _f3_cases() + _s1_cases()
+
+
+def _s1_cases():
+    W = "fn work(n: int) { println(n); }\n"
+    return [
+        # S1: only a function of the program (defined in the module or imported from a code module) can be spawned: the
+        # compiler emits Spawn for a function NAME; a function VALUE (local, parameter, global, builtin, host import) cannot
+        # run on a new core. Thread handles do not exist: a spawn expression has the type null
+        ("S1-local", W + "fn main() { let f = work; spawn f(3); }\n", True, "spawn of a local variable holding a function"),
+        ("S1-param", "fn run(f: fn(n: int) -> null) { spawn f(1); }\n" + W + "fn main() { run(work); }\n", True, "spawn of a parameter of function type"),
+        ("S1-lambda", "fn main() { let f = fn(n: int) { println(n); }; spawn f(1); }\n", True, "spawn of a variable holding a function literal"),
+        ("S1-lambda-in-lambda", W + "fn main() { let g = fn() { let w = work; spawn w(1); }; g(); }\n", True, "the same inside a function literal"),
+        ("S1-shadow", W + "fn main() { let work = fn(n: int) { println(n + 1); }; spawn work(1); }\n", True,
+         "a local function value that shadows a function of the module"),
+        ("S1-builtin", "fn main() { spawn println(1); }\n", True, "spawn of a builtin"),
+        ("S1-builtin-throw", 'fn main() { spawn throw("x"); }\n', True, "spawn of the builtin throw"),
+        ("S1-builtin-let", "fn main() { let h = spawn print(1, 2); }\n", True, "spawn of a builtin, let-bound"),
+        ("S1-host-import", 'import { ping } from net;\nfn main() { spawn ping("a", 1.0); }\n', True, "spawn of a function imported from a host module"),
+        ("S1-global-int", "let g = 1;\nfn main() { spawn g(1); }\n", True, "spawn of a global that is no function"),
+        ("S1-catch-ident", W + 'fn main() { try { throw("x"); } catch work { spawn work(1); } }\n', True, "spawn of a catch identifier that shadows a function"),
+        ("S1-for-ident", W + "fn main() { for work in 0..2 { spawn work(1); } }\n", True, "spawn of a loop variable that shadows a function"),
+        ("S1-undefined", "fn main() { spawn nope(1); }\n", True, "spawn of an undefined name"),
+        ("S1-join", W + "fn main() { let h = spawn work(3); h.join(); }\n", True, "`join` on the result of a spawn: thread handles do not exist"),
+        ("S1-join-value", W + "fn main() { let h = spawn work(3); println(h.join); }\n", True, "`join` read as a value"),
+        ("S1-join-direct", W + "fn main() { (spawn work(3)).join(); }\n", True, "`join` directly on the spawn expression"),
+        ("S1-result-int", "fn calc(n: int) -> int { n * 2 }\nfn main() { let r: int = spawn calc(3); println(r); }\n", True,
+         "the result of a spawn is not the result of the function"),
+        ("S1-result-arg", "fn calc(n: int) -> int { n * 2 }\nfn main() { println(spawn calc(3)); }\n", True, "a spawn has no value that could be printed"),
+        ("S1-called-twice", W + "fn main() { spawn work(1)(2); }\n", True, "call of the result of a spawn"),
+        ("S1-closure-arg", "fn ap(f: fn() -> int) { println(f()); }\nfn main() { spawn ap(fn() -> int { 1 }); }\n", True, "function value as an argument of a spawn"),
+        # controls: functions of the program, in every position
+        ("S1-fn-ok", W + "fn main() { spawn work(3); }\n", False, "spawn of a function of the module"),
+        ("S1-fn-later-ok", "fn main() { spawn later(3); }\nfn later(n: int) { println(n); }\n", False, "spawn of a function defined further down"),
+        ("S1-event-ok", "event fn ev(a: int) { println(a); }\nfn main() { spawn ev(3); }\n", False, "spawn of an event function"),
+        ("S1-pub-ok", "pub fn helper(n: int) { println(n); }\nfn main() { spawn helper(3); }\n", False, "spawn of a pub function"),
+        ("S1-let-ok", W + "fn main() { let h = spawn work(1); let k: null = h; }\n", False, "the result of a spawn is null"),
+        ("S1-value-fn-ok", "fn calc(n: int) -> int { n * 2 }\nfn main() { spawn calc(3); let h = spawn calc(4); }\n", False,
+         "spawn of a function with a result: the result is dropped"),
+        ("S1-nested-ok", W + "fn main() { let g = fn() { spawn work(1); }; g(); try { spawn work(2); } catch e { println(e.message); } "
+                             "for i in 0..2 { spawn work(i); } let i = 0; while i < 2 { spawn work(i); i += 1; } loop { spawn work(9); break; } }\n", False,
+         "spawns inside a function literal, try, for, while, loop"),
+        ("S1-list-ok", W + "fn main() { let l = [spawn work(1), spawn work(2)]; println(l.len()); println(spawn work(3) == null); }\n", False,
+         "spawn expressions as list elements and operands"),
+        ("S1-other-local-ok", W + "fn main() { let w = work; w(1); spawn work(2); }\n", False, "a function value of another name does not matter"),
+        ("S1-recursive-ok", "fn down(n: int) { if n > 0 { spawn down(n - 1); } }\nfn main() { spawn down(3); }\n", False, "a function that spawns itself"),
+        ("S1-singleton-ok", "$Lamp = { lvl: int };\nfn dim(lamp: $Lamp, p: int) { lamp.lvl = p; }\nfn main() { spawn dim(3); }\n", False,
+         "spawn of a function that extracts a singleton"),
+    ]
 
 
 def _f3_cases():
